@@ -55,7 +55,13 @@ CONSTANTS
     All,            \* module -> set of advertised names, for modules that assign __all__
     DynDefs,        \* [Modules -> names functions may create with `global`]
     Funcs, FMod, FImports, FLoads, FChains,
-    Builtins, Implicit, PkgImplicit,
+    Builtins, Implicit, PkgImplicit
+(* The check does not assign these constants in a .cfg: it writes a module that consists of the  *)
+(* definitions  Modules == {...}, Body == ... extracted from the tree, followed by the text of   *)
+(* this module from the next line on (TLC evaluates such definitions once; as substituted        *)
+(* constants they would be re-evaluated at every use).                                           *)
+\* @@BODY
+CONSTANTS
     EntryLists,     \* the import sequences of the fresh interpreter, e.g. {<<"lena.flow">>}
     ChainCalls      \* TRUE: functions may be called one after another (loaded modules accumulate)
 
@@ -208,7 +214,10 @@ EndUser == /\ AtEnd("user")
            /\ stack' = <<>> /\ phase' = "ready"
            /\ UNCHANGED <<entries, ms, g, order, cur, fail>>
 
-Call(f) == /\ stack = <<>> /\ (phase = "ready" \/ (ChainCalls /\ phase = "called"))
+\* After a call that imported nothing the interpreter is in the state it was in before the call, so only
+\* calls that executed import statements need to be continued (same reachable namespaces, far fewer edges).
+Call(f) == /\ stack = <<>>
+           /\ (phase = "ready" \/ (ChainCalls /\ phase = "called" /\ FImports[cur] # <<>>))
            /\ ms[FMod[f]] = "loaded"
            /\ stack' = <<[k |-> "fun", id |-> f, pc |-> 1]>>
            /\ phase' = "calling" /\ cur' = f
